@@ -22,6 +22,7 @@ Layouts == <<
 Hdr(e) == SocksWrap(e.ip, e.port, <<>>)
 Table == [i \in DOMAIN Layouts |->
             [clients |-> Layouts[i].clients, sims |-> Layouts[i].sims, unk |-> Layouts[i].unk,
+             clienthdr |-> [b \in DOMAIN Layouts[i].clients |-> Hdr(Layouts[i].clients[b])],
              simhdr |-> [h \in DOMAIN Layouts[i].sims |-> Hdr(Layouts[i].sims[h])],
              unkhdr |-> Hdr(Layouts[i].unk),
              domhdr |-> SocksWrapDom(Layouts[i].dom.name, Layouts[i].dom.port, <<>>)]]
